@@ -8,7 +8,7 @@ stdin : JSON {"cases": [case, ...]}            (see tools/optlib.py: gen_case)
 stdout: JSON {"results": [result, ...]}
 Every float in the output is a C99 hex string (float.hex()): exact.
 """
-import sys, json, math, signal, copy
+import os, sys, json, math, signal, copy
 import numpy as np
 import xdeps
 import xdeps.general
@@ -209,12 +209,57 @@ def new_rec():
 # building and observing an optimizer
 # ---------------------------------------------------------------------------
 
+class Cont(dict):
+    """a container: a dict that may carry a `vary_default` attribute (limits / step defaults)"""
+
+
+class Knobs:
+    """the knob locations in order: (container, name) pairs - names may repeat across containers"""
+    def __init__(self, locs):
+        self.locs = locs
+
+    def values(self):
+        return [float(c[nm]) for c, nm in self.locs]
+
+
+class Box:
+    """a target value given as an object with a `_value` attribute (read at every call)"""
+    def __init__(self, v):
+        self._value = v
+
+    def __gt__(self, other):
+        return self._value > other
+
+
+def transform_fn(spec):
+    """the duck-typed `transform` hook of a target object"""
+    kind = spec[0]
+    if kind == "abs":
+        return lambda v: abs(v)
+    if kind == "square":
+        return lambda v: v * v
+    if kind == "scale":
+        c = spec[1]
+        return lambda v: v * c
+    if kind == "floor":
+        a = spec[1]
+        return lambda v: v if v > a else a
+    if kind == "ceil":
+        b = spec[1]
+        return lambda v: v if v < b else b
+    raise ValueError(kind)
+
+
+def apply_tr(spec, v):
+    return v if not spec else transform_fn(spec)(v)
+
+
 class Act(xo.Action):
     def __init__(self, fun, cont, names):
         self.fun, self.cont, self.names = fun, cont, names
 
     def run(self):
-        return self.fun([self.cont[n] for n in self.names])
+        return self.fun(self.cont.values())
 
 
 def build(case, rec, twin=None):
@@ -222,20 +267,34 @@ def build(case, rec, twin=None):
     weight=, weight=None, a single Vary instead of a list, solver=, solver_options=, name=, show_call_counter="""
     n = len(case["x0"])
     names = list(case.get("names") or [f"k{i}" for i in range(n)])
-    cont = {nm: float(v) for nm, v in zip(names, case["x0"])}
+    cidx = list(case.get("containers") or [0] * n)
+    conts = [Cont() for _ in range(max(cidx) + 1)]
+    for i in range(n):
+        conts[cidx[i]][names[i]] = float(case["x0"][i])
+    cont = Knobs([(conts[cidx[i]], names[i]) for i in range(n)])
     g = make_function(case["fun"], rec, twin)
     cx = case.get("ctor", {})
     used = set()
+    if len(conts) > 1:
+        used.add("several containers" + (" with equal knob names" if len(set(names)) < n else ""))
     vary = []
     for i, v in enumerate(case["vary"]):
         kw = dict(limits=(None if v["limits"] is None else tuple(v["limits"])), step=v["step"], weight=v["weight"],
                   max_step=v["max_step"], tag=v["tag"], active=v["active"])
+        if v.get("max_step_np") and v["max_step"] is not None:
+            kw["max_step"] = np.float64(v["max_step"]); used.add("Vary(max_step=<numpy scalar>)")
+        if cx.get("vary_default") and v["limits"] is not None and v["step"] is not None:
+            c_ = conts[cidx[i]]
+            if not hasattr(c_, "vary_default"):
+                c_.vary_default = {}
+            c_.vary_default[names[i]] = {"limits": tuple(v["limits"]), "step": v["step"]}
+            kw["limits"] = None; kw["step"] = None; used.add("container.vary_default")
         if cx.get("vary_weight_none") and v["weight"] == 1.0:
             kw["weight"] = None; used.add("Vary(weight=None)")
         if cx.get("varylist"):
-            vary.append(xo.VaryList([names[i]], cont, **kw)); used.add("VaryList")
+            vary.append(xo.VaryList([names[i]], conts[cidx[i]], **kw)); used.add("VaryList")
         else:
-            vary.append(xo.Vary(names[i], container=cont, **kw))
+            vary.append(xo.Vary(names[i], container=conts[cidx[i]], **kw))
     act = Act(g, cont, names)
     targets = []
     for i, t in enumerate(case["targets"]):
@@ -248,12 +307,20 @@ def build(case, rec, twin=None):
             kw["weight"] = None; used.add("Target(weight=None)")
         else:
             kw["weight"] = t["weight"]
+        val = t["value"]
+        if cx.get("boxed_value") and not t.get("optimize_log"):
+            val = Box(t["value"]); used.add("Target(value=<object with _value>)")
         if cx.get("targetlist"):
-            targets.append(xo.TargetList([i], value=t["value"], action=act, **kw)); used.add("TargetList")
+            targets.append(xo.TargetList([i], value=val, action=act, **kw)); used.add("TargetList")
+            tobj = targets[-1].targets[0]
         elif cx.get("action_target"):
-            targets.append(act.target(i, t["value"], **kw)); used.add("Action.target()")
+            targets.append(act.target(i, val, **kw)); used.add("Action.target()")
+            tobj = targets[-1]
         else:
-            targets.append(xo.Target(i, t["value"], action=act, **kw))
+            targets.append(xo.Target(i, val, action=act, **kw))
+            tobj = targets[-1]
+        if t.get("transform"):
+            tobj.transform = transform_fn(t["transform"]); used.add("target.transform hook")
     o = case["opts"]
     okw = {}
     if cx.get("solver"):
@@ -307,7 +374,7 @@ def observe(opt, cont, names, start):
     e = opt._err
     s = opt.solver
     rows, n, ragged = log_rows(opt, start)
-    return {"knobs": HL(cont[nm] for nm in names),
+    return {"knobs": HL(cont.values()),
             "va": [bool(v.active) for v in e.vary], "ta": [bool(t.active) for t in e.targets],
             "sx": None if s._x is None else HL(s._x),
             "mfl": [bool(b) for b in getattr(s, "mask_from_limits", [])],
@@ -338,7 +405,7 @@ def independent(g, case, knobs, ta, targets=None):
     point (log10 residual for active optimize_log targets), evaluated from scratch"""
     targets = case["targets"] if targets is None else targets
     r = g(knobs)
-    errs = [r[i] - targets[i]["value"] for i in range(len(r))]
+    errs = [apply_tr(targets[i].get("transform"), r[i]) - targets[i]["value"] for i in range(len(r))]
     pen2 = 0.0
     scale2 = 0.0
     for i, t in enumerate(targets):
@@ -557,7 +624,7 @@ def run_sequence(case, rec, twin=None, with_oracles=True):
     unit_at_log = unit    # were all vary weights 1 during the operation that logged a row (its knobs are then exact)
     row_unit = [unit for _ in range(prev_len)]
     if with_oracles:
-        bad = within_limits(case, [cont[nm] for nm in names])
+        bad = within_limits(case, cont.values())
         if bad:
             out["C10"].append({"what": "start point outside limits accepted by the constructor", "knobs": bad})
     for iop, op in enumerate(case["ops"]):
@@ -568,7 +635,7 @@ def run_sequence(case, rec, twin=None, with_oracles=True):
         elif kind == "add_point":         # add_point_to_log(tag) is tag(tag)
             op, kind = ["tag", op[1]], "tag"
         e = opt._err
-        kn_before = [float(cont[nm]) for nm in names]
+        kn_before = cont.values()
         va_before = [bool(v.active) for v in e.vary]
         ta_before = [bool(t.active) for t in e.targets]
         len_before = min(len(opt._log[k]) for k in opt._log)
@@ -600,7 +667,7 @@ def run_sequence(case, rec, twin=None, with_oracles=True):
         ob = observe(opt, cont, names, prev_len)
         prev_len = ob["loglen"]
         out["steps"].append({"out": status, "obs": ob})
-        kn_after = [float(cont[nm]) for nm in names]
+        kn_after = cont.values()
         va_after = [bool(v.active) for v in e.vary]
         ta_after = [bool(t.active) for t in e.targets]
         L = opt._log
@@ -776,7 +843,6 @@ def rows_oracle(opt, cont, names, g, case, unit, iop, row_cfg=None, reconf=False
     try:
         o2 = copy.deepcopy(opt)
         e2 = o2._err
-        c2 = e2.vary[0].container
         g2 = make_function(case["fun"], None, None)
         unit_now = unit
         for i in range(nrows):
@@ -789,9 +855,9 @@ def rows_oracle(opt, cont, names, g, case, unit, iop, row_cfg=None, reconf=False
             except Exception as ex:
                 if unit and not reconf:
                     fails.append({"what": "reload(i) raised", "at": iop, "row": i, "error": err_class(ex)})
-                o2 = copy.deepcopy(opt); e2 = o2._err; c2 = e2.vary[0].container
+                o2 = copy.deepcopy(opt); e2 = o2._err
                 continue
-            kn = [float(c2[nm]) for nm in names]
+            kn = [float(v.container[v.name]) for v in e2.vary]
             va = [bool(v.active) for v in e2.vary]
             ta = [bool(t.active) for t in e2.targets]
             tol_u = 0.0 if unit else 8.0
@@ -926,6 +992,12 @@ def run_case(case):
 
 def main():
     inp = json.load(sys.stdin)
+    # LAPACK reports illegal arguments (a NaN / inf matrix) by printing to the C-level stdout:
+    # keep the result channel clean - file descriptor 1 goes to stderr, the JSON to a copy of the original
+    sys.stdout.flush()
+    out_fd = os.dup(1)
+    os.dup2(2, 1)
+    result_stream = os.fdopen(out_fd, "w")
     res = []
     for case in inp["cases"]:
         res.append(run_case(case))
@@ -933,7 +1005,8 @@ def main():
     sigs = {c.__name__: [p for p in inspect.signature(c.__init__).parameters if p != "self"]
             for c in (xo.Vary, xo.Target, xo.VaryList, xo.TargetList, xo.Optimize)}
     json.dump({"results": res, "public_api": public_api(), "modelled": sorted(MODELLED), "not_called": NOT_CALLED,
-               "ctor_signatures": sigs}, sys.stdout)
+               "ctor_signatures": sigs}, result_stream)
+    result_stream.flush()
 
 
 if __name__ == "__main__":
